@@ -106,9 +106,26 @@ func RunE1(c *Ctx, prop string, obs []Ob) {
 			c.R.Extra["guarantee_holder_gone:"+g.Fn] = true
 			continue
 		}
-		obs = append(obs, Ob{ID: "E1.guarantee", Fn: g.Fn, P: g.P, Kind: "ret ok", Req: req, Why: "callers assume these facts on the success edge of " + g.Fn})
+		// the function establishes its predicates either by the concrete proof or by obtaining them from another guaranteed
+		// function it delegates to
+		either := func(facts, proof []string) []string {
+			if len(facts) == 0 || len(proof) == 0 {
+				return proof
+			}
+			abstract := true
+			for _, fsrc := range facts {
+				if factPreds[mustFactPattern(fsrc).S] {
+					abstract = false
+				}
+			}
+			if !abstract {
+				return proof
+			}
+			return []string{"(" + strings.Join(facts, " && ") + ") || ((" + strings.Join(proof, ") && (") + "))"}
+		}
+		obs = append(obs, Ob{ID: "E1.guarantee", Fn: g.Fn, P: g.P, Kind: "ret ok", Req: either(g.Facts, req), Why: "callers assume these facts on the success edge of " + g.Fn})
 		if len(g.FailProof) > 0 {
-			obs = append(obs, Ob{ID: "E1.guarantee.fail", Fn: g.Fn, P: g.P, Kind: "ret fail", Req: g.FailProof, Why: "callers assume these facts on the failure edge of " + g.Fn})
+			obs = append(obs, Ob{ID: "E1.guarantee.fail", Fn: g.Fn, P: g.P, Kind: "ret fail", Req: either(g.FailFacts, g.FailProof), Why: "callers assume these facts on the failure edge of " + g.Fn})
 		}
 	}
 	obs = append(obs, leafObs(prop)...)
